@@ -162,7 +162,7 @@ def run(kind, version, cut_link, cut_n, plan):
                 conn.connect()
         except Exception as e:
             err = e
-        alive = world.join_threads(30)
+        alive = world.settle()
     return {'world': world, 'servers': srvs, 'o': o, 'seen': seen,
             'status_calls': status_calls, 'alive': alive, 'err': err,
             'conn': conn}
@@ -208,9 +208,12 @@ def cut_case(ctx, case):
     r = run(kind, version, li, n, plan)
     world, o = r['world'], r['o']
     inside = n not in ends and 0 < n < N
-    if r['alive']:
+    if r['alive'] == 'timeout':
+        from vlib.core import HarnessError
+        raise HarnessError('C15 case did not settle: %r' % (case,))
+    if r['alive'] == 'idle':
         ctx.fail('cut', 'H2-thread-did-not-terminate', case,
-                 'thread alive after 30 s (harness guard)')
+                 'thread idles for ever after end-of-stream')
         return
     if world.blocked:
         ctx.fail('cut', 'H2-blocked-in-read', case)
